@@ -103,6 +103,13 @@ func (p *LeakyBucketPacer) Write(header *rtp.Header, payload []byte, attributes 
 		return 0, errLeakyBucketPacerPoolCastFailed
 	}
 
+	if len(payload) > len(*buf) {
+		// the pooled buffers hold 1460 bytes; larger payloads get a buffer of their own
+		// (slicing a pooled buffer to the payload size would panic in Run)
+		p.pool.Put(buf)
+		b := make([]byte, len(payload))
+		buf = &b
+	}
 	copy(*buf, payload)
 	hdr := header.Clone()
 
